@@ -272,6 +272,21 @@ func NewReader(filename string) (*Reader, error) {
 	return &r, nil
 }
 
+// IsUnfinished tells if the file is an index that was never finalized, the magic
+// is the last thing that is written to an index file.
+func IsUnfinished(filename string) bool {
+	file, err := os.Open(filename)
+	if err != nil {
+		return false
+	}
+	defer file.Close()
+	magic := [len(fileMagic)]byte{}
+	if _, err := io.ReadFull(file, magic[:]); err != nil {
+		return err == io.EOF || err == io.ErrUnexpectedEOF
+	}
+	return magic == [len(fileMagic)]byte{}
+}
+
 func (r *Reader) StreamCount() int {
 	return r.objectCount(sectionStreams, int(unsafe.Sizeof(stream{})))
 }
